@@ -11,7 +11,7 @@ static const unsigned MASKS[3] = { 0, 5, 7 };
 
 static void try_buf(const uint8_t buf[32], unsigned mask, struct res *r, uint64_t id, const char *fam) {
     uint8_t copy[32]; memcpy(copy, buf, 32);
-    polyseed_enable_features(mask);
+    polyseed_enable_features((id & 1) ? (mask | 0xFFFFFFF8u) : mask);     /* only the three low bits of the argument count */
     polyseed_data *d = NULL; rseed want_s;
     int st = polyseed_load(copy, &d), want = ref_load(buf, mask, &want_s);
     r->cases++; r->calls++;
@@ -84,7 +84,8 @@ static void work_rt(long lo, long hi, struct res *r, void *arg) {
         uint8_t b[32]; ref_storage(&s, b);
         /* the library's own serialisation of the same seed made through create */
         polyseed_enable_features(7);
-        polyseed_data *d = seed_via_create(&s); r->calls++; r->cases++;
+        extern uint64_t E_create_clock_shift; E_create_clock_shift = (x & 3) == 3 ? (uint64_t)(1 + (x >> 2) % 5) * 1024 * R_STEP : 0;   /* a clock one or more 1024-month ranges later gives the same month index */
+        polyseed_data *d = seed_via_create(&s); r->calls++; r->cases++; E_create_clock_shift = 0;
         if (!d) { res_viol(r, "c06:rt-create", "", "cannot create seed"); continue; }
         uint8_t st[32]; polyseed_store(d, st); polyseed_free(d); r->calls += 2;
         r->digest ^= mix64(x, st[30] | st[31] << 8);
